@@ -10,18 +10,20 @@ From FR Require Import Bytes Coerce Gen_coerce Coerce_proofs.
 Open Scope Z_scope.
 
 (* the generated facts have the shape the proofs need: the three range tests are `value < 0 or value > MAX`
-   with MAX = 0xFFFF / 0xFFFFFFFF / 1, bytes tests isinstance, string decodes bytes with surrogateescape, the
-   digest setters demand 16 / 20 / 32 bytes, __setattr__ stores after converting and lets None through,
-   typedlist converts every element, datetime ends with the tzinfo fix-up *)
+   with MAX = 0xFFFF / 0xFFFFFFFF / 1 AND are followed by the integrality test `value != int(self)`; uint16/uint32
+   keep int(self) as packed value; bytes tests isinstance; string decodes bytes with surrogateescape; the digest
+   setters demand 16 / 20 / 32 bytes and digest.__init__ raises for anything that is not a tuple, list, dict or
+   None; __setattr__ stores after converting and lets None through; typedlist converts every element; datetime
+   ends with the tzinfo fix-up.  Reverting any of the repairs e636926 / f4497f4 / b7afec5 makes this fail. *)
 Theorem C05_generated_facts : facts_ok gen_facts = true.
 Proof. reflexivity. Qed.
 
 (* ---- conversion is sound: whatever a constructor accepts is a value of the type ---- *)
-(* FULL statement: forall E t v s, coerce gen_facts E t v = Ok s -> has_type t s = true.  It is FALSE of the
-   faithful model (witnesses below).  The partial statement excludes exactly the finding classes (cand_ok):
-   a float for uint16/uint32, a float strictly between 0 and 1 for boolean, a non-container for digest --
-   and, for the pass-through type `record`, candidates that are not records (the property's quantifier). *)
-Theorem C05_coerce_sound_partial : forall E, env_ok E -> forall t v s,
+(* FULL statement over all field types, all candidate values and every runtime.  cand_ok is the property's own
+   quantifier for the documented pass-through type `record` (its candidates are records); it is `true` for every
+   value of every other type.  (Text with a lone surrogate IS a value of the text types; that class is excluded
+   only from the serialisation clause below.) *)
+Theorem C05_coerce_sound : forall E, env_ok E -> forall t v s,
   cand_ok t v = true -> coerce gen_facts E t v = Ok s -> has_type t s = true.
 Proof. intros E HE t v s. exact (coerce_sound gen_facts E eq_refl HE v t s). Qed.
 
@@ -29,27 +31,38 @@ Definition half : pv := PFloat 4602678819172646912%N (FFinite 0 false).         
 Definition five_point_seven : pv := PFloat 4617653499156575027%N (FFinite 5 false).      (* 5.7 *)
 Definition md5_text : pv := PStr (bytes_of_string "d41d8cd98f00b204e9800998ecf8427e") false.
 
-(* boolean(0.5) is accepted: the int object 0 with packed value True *)
-Theorem C05_refuted_boolean_fraction : forall E,
-  coerce gen_facts E TBoolean half = Ok (SBool 0 true)
-  /\ has_type TBoolean (SBool 0 true) = false /\ unrepresentable E TBoolean half = true.
-Proof. intros E. repeat split. Qed.
+(* the three former findings, now rejected -- for EVERY non-integral float / every malformed digest value *)
+Theorem C05_rejects_fractions : forall E bits fl,
+  (exists e, coerce gen_facts E TUint16 (PFloat bits (FFinite fl false)) = Raise e)
+  /\ (exists e, coerce gen_facts E TUint32 (PFloat bits (FFinite fl false)) = Raise e)
+  /\ (exists e, coerce gen_facts E TBoolean (PFloat bits (FFinite fl false)) = Raise e).
+Proof.
+  intros E bits fl.
+  exact (conj (uint_fraction_rejected gen_facts E eq_refl bits fl)
+          (conj (uint32_fraction_rejected gen_facts E eq_refl bits fl) (boolean_fraction_rejected gen_facts E eq_refl bits fl))).
+Qed.
 
-(* uint16(5.7) / uint32(5.7) are accepted and keep 5.7 as the packed value *)
-Theorem C05_refuted_uint_fraction : forall E,
-  coerce gen_facts E TUint16 five_point_seven = Ok (SUInt 5 (UFloat 4617653499156575027%N))
-  /\ coerce gen_facts E TUint32 five_point_seven = Ok (SUInt 5 (UFloat 4617653499156575027%N))
+(* each repaired test is load-bearing: with the facts of the code before the repair the model accepts the old
+   failing input (boolean(0.5) -> int object 0 with packed value True; uint16(5.7) keeps 5.7; digest(<text>) empty) *)
+Theorem C05_without_boolean_fix : forall E,
+  coerce (without_boolean_fix gen_facts) E TBoolean half = Ok (SBool 0 true)
+  /\ has_type TBoolean (SBool 0 true) = false.
+Proof. intros E. split; reflexivity. Qed.
+
+Theorem C05_without_uint_fix : forall E,
+  coerce (without_uint_fix gen_facts) E TUint16 five_point_seven = Ok (SUInt 5 (UFloat 4617653499156575027%N))
+  /\ coerce (without_uint_fix gen_facts) E TUint32 five_point_seven = Ok (SUInt 5 (UFloat 4617653499156575027%N))
   /\ has_type TUint16 (SUInt 5 (UFloat 4617653499156575027%N)) = false.
 Proof. intros E. repeat split. Qed.
 
-(* digest("<hex text>") is silently an empty digest *)
-Theorem C05_refuted_digest_text : forall E,
-  coerce gen_facts E TDigest md5_text = Ok (SDigest None None None) /\ unrepresentable E TDigest md5_text = true.
+Theorem C05_without_digest_fix : forall E,
+  coerce (without_digest_fix gen_facts) E TDigest md5_text = Ok (SDigest None None None)
+  /\ unrepresentable E TDigest md5_text = true.
 Proof. intros E. split; reflexivity. Qed.
 
 (* ---- well-typedness is an invariant of every operation history ---- *)
-(* FULL statement (no hypothesis on the values) is false: C05_invariant_refuted.  op_ok: every value handed to
-   an operation is None or passes cand_ok for the slot it goes to. *)
+(* FULL statement: op_ok only restricts the values handed to `record` slots to records or None (the property's
+   quantifier); every value is allowed for every other slot. *)
 Theorem C05_invariant : forall E, env_ok E -> forall kw ops r,
   forallb (op_ok (types r)) ops = true -> well_typed r = true ->
   well_typed (fst (run_ops gen_facts E kw r ops)) = true.
@@ -59,8 +72,10 @@ Theorem C05_invariant_blank : forall E, env_ok E -> forall kw ts ops,
   forallb (op_ok ts) ops = true -> well_typed (fst (run_ops gen_facts E kw (blank kw ts) ops)) = true.
 Proof. intros E HE. exact (invariant_blank gen_facts E eq_refl HE). Qed.
 
-Theorem C05_invariant_refuted : forall E,
-  well_typed (fst (run_ops gen_facts E false (blank false [TUint16]) [OSet 0 five_point_seven])) = false.
+(* e.g. the history that used to break the invariant now leaves the record untouched *)
+Theorem C05_invariant_former_witness : forall E,
+  run_ops gen_facts E false (blank false [TUint16]) [OSet 0 five_point_seven]
+  = ([(TUint16, SNone)], [Raised EValueError]).
 Proof. intros E. reflexivity. Qed.
 
 (* ---- a step that raises leaves the record as it was ---- *)
@@ -73,9 +88,11 @@ Theorem C05_none_is_always_accepted : forall E r i sl, nth_error r i = Some sl -
 Proof. intros E. exact (setattr_none gen_facts E eq_refl). Qed.
 
 (* ---- the property's list of values a type cannot represent is rejected ---- *)
-(* FULL statement (without reject_hyp) is false: C05_refuted_boolean_fraction, C05_refuted_digest_text. *)
+(* FULL statement: unrepresentable = out-of-range or non-integral number for uint16/uint32, number other than 0/1
+   for boolean, anything but None / a well-formed tuple, list or dict for digest, what ip_address / ip_network
+   refuse, non-bytes for bytes, a list with such an element. *)
 Theorem C05_rejects_unrepresentable : forall E t v,
-  unrepresentable E t v = true -> reject_hyp t v = true -> exists e, coerce gen_facts E t v = Raise e.
+  unrepresentable E t v = true -> exists e, coerce gen_facts E t v = Raise e.
 Proof. intros E t v. exact (rejects_unrepresentable gen_facts E eq_refl v t). Qed.
 
 (* the same, spelled out per class, for ALL values of the class *)
@@ -95,7 +112,7 @@ Theorem C05_rejects_non_bytes : forall E v, plain v = true -> (forall b, v <> PB
   exists e, coerce gen_facts E TBytes v = Raise e.
 Proof. intros E. exact (non_bytes_rejected gen_facts E eq_refl). Qed.
 
-Theorem C05_rejects_malformed_digest : forall E v, is_container v = true -> digest_wellformed v = false ->
+Theorem C05_rejects_malformed_digest : forall E v, plain v = true -> digest_wellformed v = false ->
   exists e, coerce gen_facts E TDigest v = Raise e.
 Proof. intros E. exact (malformed_digest_rejected gen_facts E eq_refl). Qed.
 
@@ -153,7 +170,7 @@ Example C05_hyp_satisfiable :
   /\ cand_ok TUint16 (PInt 65535) = true /\ cand_ok (TList TBoolean) (PList [PBool true; PInt 0]) = true
   /\ op_ok [TUint16; TDigest] (OReplace [(0%nat, PInt 7); (1%nat, PNone)]) = true
   /\ unrepresentable env0 (TList TUint16) (PList [PInt 1; PInt 65536]) = true
-  /\ reject_hyp (TList TUint16) (PList [PInt 1; PInt 65536]) = true
+  /\ unrepresentable env0 TDigest md5_text = true /\ plain md5_text = true /\ digest_wellformed md5_text = false
   /\ (let r := fst (run_ops gen_facts env0 false (blank false [TUint16; TList TString])
                       [OSet 0 (PInt 80); OSet 1 (PList [PBytes (bytes_of_string "a")]); OSet 0 (PInt 65536)]) in
       r = [(TUint16, SUInt 80 (UInt 80)); (TList TString, SList [SStr (bytes_of_string "a") false])]
